@@ -10,16 +10,16 @@ LEVEL = 'proof'
 TIE = {'approval.ProportionalApproval / SequentialProportionalApproval': 'correspondence',
        'convert.ScoreToSimpleVotes (corrections, truncation, aggregation), cardinal.ScoreVoting, MajorityJudgment (default, plus)': 'correspondence',
        'cardinal.STAR (default configuration; Schulze run-off with the candidate order of the pairwise dictionary, results compared as sets)': 'correspondence',
-       'cardinal.AllocatedScore*': 'implementation-side reference checks only'}
+       'cardinal.AllocatedScoreSelector / AllocatedScoreDistributor (prev_gains, max_seats; the iteration order of a Tie frozenset is an argument of the model, read off Python per candidate set)': 'correspondence'}
 RULE = ('corpus; approval profiles over 2..6 candidates (1..7 distinct ballots, weights 1..5) x n 1..|C| through PAV (fresh object per '
         'call and a shared object) and SPAV; score profiles over 2..5 candidates, grades 0..5, partial ballots, through ScoreVoting and '
         'MajorityJudgment with function in {mean,sum,median_low}, unscored_value in {None,0,min}, min_count in {0,2}, truncation in {0,1,1/10}, '
-        'tie_breaking in {default,plus}; a single-seat stream of complete ballots with grades 0..2 (level medians, close STAR run-offs); STAR through the model and (run-off of two) a reference, allocated score against an independent Python reference. Declarative '
+        'tie_breaking in {default,plus}; a single-seat stream of complete ballots with grades 0..2 (level medians, close STAR run-offs); STAR through the model and (run-off of two) a reference; allocated score (selector; distributor with prev_gains / max_seats; Hare and Droop; 1..m seats; integer and fractional weights; few-grade profiles with level leaders) through Model/AllocScore.v - order of election and exception class compared exactly - and against an independent Python reference. Declarative '
         'clauses on implementation outputs: PAV committee = unique brute-force maximiser of the harmonic satisfaction (refusal iff not unique) '
         'and satisfies justified representation; SPAV round = unique argmax. non-trivial = more than two ballots; distinct by case hash')
-PARTIAL = ['allocated score: no Coq model; checked against a Python reference',
+PARTIAL = ['allocated score: the clause is proved for every round without a tie and positive ballot weights; rounds with level leaders follow the code (all elected in set-iteration order, or one tie entry for several seats: C12_alloc_tie_*_refuted) and the ValueError of the subtraction loop is characterised exactly (crash_cond, C12_alloc_crash_refuted)',
            'STAR: the run-off clause is proved for one seat with two untied finalists (C12_star_runoff); other run-off sizes are modelled and compared only',
-           'MJ default tie-break for more than one seat: only the median clause (C12_mj_highest_median) is proved']
+           'MJ default tie-break for more than one seat: only the median clause (C12_mj_highest_median) is proved; the multi-copy removal step = mj_ch single removals (C12_mj_multi_copy) assumes non-negative counts and numerically distinct grades per candidate']
 TRUSTED = []
 _shared = {}
 
@@ -51,7 +51,41 @@ def model_line(c):
         return '%d (%d %s %s %d)' % (U['mj'], 1 if c['plus'] else 0, cfg_sx(dict(c['cfg'], fn='median_low')), sp_sx(c['votes']), c['n'])
     if u == 'star' and c.get('unscored', 'none') == 'none':
         return '%d (%s %d)' % (BLOCK['C12'], sp_sx(c['votes']), c['n'])
-    return '%d (%s %d)' % (U['pav'], '()', 0)          # alloc: no model (placeholder line)
+    if u == 'alloc':
+        # Model/AllocScore.v: (mode quota tie-orders votes n prev_gains max_seats)
+        return '%d (%d %s %s %s %d %s %s)' % (
+            BLOCK['C12'] + 1, 1 if c.get('mode') == 'dist' else 0, {'hare': '(1)', 'droop': '(3)'}[c['quota']],
+            sx(tie_orders(c)), sx([[[[cc, q(s)] for cc, s in sorted(b)], q(w)] for b, w in c['votes']]), c['n'],
+            sx([[k, v] for k, v in c.get('prev', [])]), sx([[k, v] for k, v in c.get('max', [])]))
+    return '%d (%s %d)' % (U['pav'], '()', 0)          # STAR with an unscored_value: no model (placeholder line)
+
+
+_ORDERS = {}
+
+
+def tie_orders(c):
+    """`for cand in best` over a Tie iterates a frozenset: the order Python uses for every set of >= 2 candidates
+    of the case.  The Tie is built from a list whose order follows other set iterations; a set whose iteration
+    order depends on the insertion order makes the case ambiguous (not compared)."""
+    cands = tuple(sorted({cc for b, _ in c['votes'] for cc, _ in b}))
+    if cands not in _ORDERS:
+        import votelib.evaluate.core as core
+        out, amb = [], False
+        for r in range(2, len(cands) + 1):
+            for sub in itertools.combinations(cands, r):
+                seen = {tuple(core.Tie([cname(x) for x in p])) for p in itertools.permutations(sub)}
+                amb = amb or len(seen) > 1
+                out.append([cnum(x) for x in core.Tie([cname(x) for x in sub])])
+        _ORDERS[cands] = (out, amb)
+    out, amb = _ORDERS[cands]
+    if amb:
+        c['_ambiguous'] = True
+    return out
+
+
+def py_w(w):
+    f = q(w)
+    return int(f) if f.denominator == 1 else f
 
 
 def py_ap(votes):
@@ -107,14 +141,29 @@ def impl(c):
         kw_star = {} if c.get('unscored', 'none') == 'none' else dict(unscored_value=int(c['unscored']))
         return ok(enc_sel(cd.STAR(**kw_star).evaluate(py_sp(c['votes']), c['n'])))
     if u == 'alloc':
-        return ok(enc_sel(cd.AllocatedScoreSelector(c['quota']).evaluate(py_sp(c['votes']), c['n'])))
+        votes = {k: py_w(w) for k, w in py_sp(c['votes']).items()}
+        if c.get('mode') == 'dist':
+            res = cd.AllocatedScoreDistributor(c['quota']).evaluate(
+                votes, c['n'], prev_gains={cname(k): v for k, v in c.get('prev', [])},
+                max_seats={cname(k): v for k, v in c.get('max', [])})
+            return ok([[enc_sel([k])[0], v] for k, v in res.items()])
+        return ok(enc_sel(cd.AllocatedScoreSelector(c['quota']).evaluate(votes, c['n'])))
     raise ValueError(u)
 
 
 def canon(c, wire):
-    if c['unit'] == 'alloc' or (c['unit'] == 'star' and c.get('unscored', 'none') != 'none'):
+    if c['unit'] == 'star' and c.get('unscored', 'none') != 'none':
         return ('n/a',)        # no Coq model for this configuration: judged by the reference in spec()
     v = common.parse_sx(wire)
+    if c['unit'] == 'alloc':
+        # the order of election is compared as it is (the members of a tie as a set); error codes exactly
+        if c.get('_ambiguous'):
+            return ('unmodelled',)
+        if v[0] != 0:
+            return ('err', v[1])
+        if c.get('mode') == 'dist':
+            return ('ok', tuple((tuple(sorted(k)) if isinstance(k, list) else k, n) for k, n in v[1]))
+        return ('ok', tuple(tuple(sorted(r)) if isinstance(r, list) else r for r in v[1]))
     if v[0] != 0:
         crash = (common.E['KEY'], common.E['STATS'], common.E['ZERODIV'], common.E['VALUE'], common.E['INDEX'])
         return ('err', 'crash' if v[1] in crash else v[1])
@@ -237,8 +286,8 @@ def alloc_ref(votes, n, quota_name):
     """independent allocated-score count: per seat the highest weighted score sum wins and one quota of its
     strongest supporters (highest score for the winner first, proportional cut at the boundary) is spent.
     Returns None when a tie or an exhausted electorate makes the outcome undefined."""
-    cur = [[dict(b), Fraction(w)] for b, w in votes]
-    total = sum(w for _, w in votes)
+    cur = [[dict(b), q(w)] for b, w in votes]
+    total = sum(q(w) for _, w in votes)
     quota = Fraction(total, n) if quota_name == 'hare' else Fraction(int(Fraction(total, n + 1)) + 1)
     elected = []
     for _ in range(n):
@@ -360,6 +409,8 @@ def spec(c, io, mo):
     if u in ('star', 'alloc') and v[0] != 0 and v[1] not in (common.E['NIE'], common.E['VSE']):
         c['_class'] = u + '-crash'
         return '%s raises %s' % (u, c.get('_exc'))
+    if u == 'alloc' and c.get('mode') == 'dist':
+        return None
     if u == 'alloc' and v[0] == 0 and not any(isinstance(r, list) for r in v[1]):
         ref = alloc_ref(c['votes'], c['n'], c['quota'])
         if ref is not None and len(v[1]) == c['n'] and sorted(ref) != sorted(v[1]):
@@ -395,8 +446,10 @@ def trunc_empties(c):
 
 
 def known_class(c, io, mo):
-    if c['unit'] != 'alloc' and canon(c, io) != canon(c, mo):
-        return None          # not the recorded behaviour any more
+    if canon(c, io) != canon(c, mo):
+        return None          # not the recorded behaviour any more (allocated score: the model reproduces the crash / shape)
+    if c.get('_class') == 'alloc-crash' and common.parse_sx(io)[1] not in (common.E['VALUE'], common.E['INDEX']):
+        return None
     return {'trunc-empty': 'C12-truncation-empties', 'mj-default-stats': 'C12-mj-default-stats', 'alloc-crash': 'C12-allocated-score-crash', 'alloc-shape': 'C12-allocated-score-crash',
             'star-crash': 'C12-star'}.get(c.get('_class'))
 
@@ -479,6 +532,38 @@ def gen_alloc_exact(rng, count):
         yield dict(unit='alloc', votes=votes, n=g if g == 3 else 3, cfg=rand_cfg(rng), quota=rng.choice(['hare', 'droop']))
 
 
+def gen_alloc_model(rng, count):
+    """allocated score, selector and distributor, against Model/AllocScore.v: random score profiles with partial
+    ballots, both quotas, 1..m seats; a share with few grades and equal weights (ties between the leaders: both tie
+    branches), a share with fractional weights, distributor calls with prev_gains / max_seats"""
+    for _ in range(count):
+        kind = rng.choice(['plain', 'plain', 'level', 'level', 'frac'])
+        if kind == 'level':
+            m = rng.randint(2, 5)
+            votes, seen = [], set()
+            for _ in range(rng.randint(1, 6)):
+                cs = sorted(rng.sample(range(1, m + 1), rng.randint(1, m)))
+                b = [[cc, rng.randint(0, 2)] for cc in cs]
+                if repr(b) not in seen:
+                    seen.add(repr(b))
+                    votes.append([b, rng.choice([1, 1, 2])])
+        else:
+            votes = sp_profile(rng)
+            if kind == 'frac':
+                votes = [[b, rng.choice([str(w), '%d/%d' % (rng.randint(1, 7), rng.randint(2, 4))])] for b, w in votes]
+        m = len({cc for b, _ in votes for cc, _ in b})
+        c = dict(unit='alloc', votes=votes, n=rng.randint(1, m), quota=rng.choice(['droop', 'hare']), cfg=rand_cfg(rng))
+        if rng.random() < 0.35:
+            c['mode'] = 'dist'
+            c['n'] = rng.randint(1, m + 2)
+            cands = sorted({cc for b, _ in votes for cc, _ in b})
+            if rng.random() < 0.6:
+                c['max'] = [[cc, rng.randint(1, 3)] for cc in cands if rng.random() < 0.6]
+            if rng.random() < 0.4:
+                c['prev'] = [[cc, rng.randint(0, 2)] for cc in cands if rng.random() < 0.5]
+        yield c
+
+
 def gen_focus(rng, count):
     """boundary stream for the single-seat clauses: complete score ballots over 3..4 candidates with few grades, so that
     level medians (majority judgment tie-breaks, three-way ties included) and close STAR run-offs are frequent"""
@@ -521,6 +606,7 @@ def explore(ctx, widen=1):
     ctx.differential('random', gen(ctx.rng, ctx.n(3000, 40000) * widen), model_line, impl, **kw)
     ctx.differential('single-seat-level', gen_focus(ctx.rng, ctx.n(1500, 15000) * widen), model_line, impl, **kw)
     ctx.differential('alloc-exact-quota', gen_alloc_exact(ctx.rng, ctx.n(3000, 20000) * widen), model_line, impl, **kw)
+    ctx.differential('alloc-model', gen_alloc_model(ctx.rng, ctx.n(4000, 40000) * widen), model_line, impl, **kw)
 
 
 def replay(ctx, case, stream=None):
